@@ -334,6 +334,32 @@ def o_fertility(a):
     return out
 
 
+def o_table(a):
+    """ table-driven death rates: the entry of the agent's age bin (last start <= age), sex and nearest year, x step length in years """
+    import starsim as ss, pandas as pd
+    su, sdt, dur = a['sim']; ru = a.get('ru', 1e-3); rel = a.get('rel', 1)
+    df = pd.DataFrame(a['table'])
+    sim, d = build('deaths', su, sdt, dur, a['mod'], df, dict(rate_units=ru, rel_death=rel))
+    ppl = sim.people
+    probs = np.asarray(ss.Deaths.make_death_prob_fn(d, sim, ppl.auids), dtype=float)
+    ages = np.array(ppl.age[ppl.auids], dtype=float); fem = np.array(ppl.female[ppl.auids])
+    now = float(sim.t.now('year'))
+    years = sorted(set(a['table']['Time']))
+    year = min(years, key=lambda y: (abs(y - now), years.index(y)))
+    step = dt_year_exact(d.t.unit, d.t.dt)
+    cell = {(y, s_, g): v for y, s_, g, v in zip(a['table']['Time'], a['table']['Sex'], a['table']['AgeGrpStart'], a['table']['mx'])}
+    starts = sorted(set(a['table']['AgeGrpStart']))
+    for k in range(len(ages)):
+        below = [g for g in starts if g <= ages[k]]
+        rate = cell[(year, 'Female' if fem[k] else 'Male', below[-1])] if below else 0.0
+        want = min(max(fr(np.float32(rate)) * fr(ru) * fr(rel) * step, 0), 1)
+        if not close(want, fr(probs[k]), 2.0 ** -20, 1e-300):
+            return [F(dict(oracle='table-lookup', process='deaths', sex='f' if fem[k] else 'm'),
+                      f"death-rate table (years {years}, age starts {starts}): agent aged {ages[k]:.3f}, {'female' if fem[k] else 'male'}, at {now:.2f} gets per-step probability "
+                      f"{probs[k]!r}; the entry for year {year}, age bin {below[-1] if below else '-inf'} is {rate} -> expected {float(want)!r}")]
+    return []
+
+
 def o_coverage(a):
     su, sdt, dur = a['sim']; P = a['P']
     prob = delivery_prob(su, sdt, dur, P)
@@ -399,7 +425,7 @@ def o_events(a):
     return out
 
 
-ORACLES = dict(hazard=o_hazard, fertility=o_fertility, coverage=o_coverage, ageing=o_ageing, net_beta=o_net_beta, events=o_events)
+ORACLES = dict(hazard=o_hazard, table=o_table, fertility=o_fertility, coverage=o_coverage, ageing=o_ageing, net_beta=o_net_beta, events=o_events)
 
 
 def run_oracle(ctx, name, args):
@@ -425,6 +451,7 @@ def search(ctx):
             run_oracle(ctx, 'hazard', dict(kind=kind, form='timepar', sim=[su, sdt, dur], mod=mkw, v=rng.choice([5, 12.5, 40]), runit=rng.choice(['year', 'month', 'day']),
                                            ru=rng.choice([1e-3, 1]) if kind == 'births' else 1e-3, rel=rng.choice([1, 0.5])))
             run_oracle(ctx, 'hazard', dict(kind=kind, form='number', sim=[su, sdt, dur], mod=mkw, v=rng.choice([25.0, 10, 1200]), rel=rng.choice([1, 2])))
+        run_oracle(ctx, 'table', dict(sim=[su, sdt, dur], mod=mkw, table=death_table(rng).to_dict(orient='list'), ru=rng.choice([1e-3, 1]), rel=rng.choice([1, 0.5])))
         run_oracle(ctx, 'fertility', dict(sim=[su, sdt, dur], mod=mkw, v=rng.choice([80, 150, 20.5])))
         run_oracle(ctx, 'coverage', dict(sim=[su, sdt, dur], P=rng.choice([0.3, 0.05, 0.9])))
         L = c06.live_units()
